@@ -402,8 +402,8 @@ def ref_lnl_unnormalised(lens, meta, cosmo, hyper):
     mu = p["mu_source_fn"](zs)
     if t == "Mag":
         amp = 10 ** (-(mu - lens.get("magnitude_zero_point", 20)) / 2.5)
-        return mvn.logpdf(lens["amp_measured"], amp * lens["magnification_model"],
-                          np.asarray(lens["cov_amp_measured"]) + np.asarray(lens["cov_magnification_model"]) * amp ** 2)
+        return gauss_logpdf(lens["amp_measured"], amp * lens["magnification_model"],
+                            np.asarray(lens["cov_amp_measured"]) + np.asarray(lens["cov_magnification_model"]) * amp ** 2)
     ntd, namp = meta["ntd"], meta["namp"]
     cd = np.zeros((ntd + namp, ntd + namp))
     cd[:ntd, :ntd] = lens["cov_td_measured"]
@@ -418,7 +418,16 @@ def ref_lnl_unnormalised(lens, meta, cosmo, hyper):
         scale = np.append(p["ddt_"] * FERMAT * np.ones(ntd), np.ones(namp))
         model = np.append(p["ddt_"] * FERMAT * np.asarray(lens["fermat_diff"]), np.asarray(lens["magnification_model"]) + mu)
         data = np.append(lens["time_delay_measured"], lens["magnitude_measured"])
-    return mvn.logpdf(data, model, cd + np.outer(scale, scale) * np.asarray(lens["cov_model"]))
+    return gauss_logpdf(data, model, cd + np.outer(scale, scale) * np.asarray(lens["cov_model"]))
+
+
+def gauss_logpdf(x, mu, C):
+    """multivariate normal log-density by solve/slogdet (scipy's mvn rejects the badly scaled joint time-delay /
+    flux covariances, condition number ~1e11, as singular)"""
+    x, mu, C = np.asarray(x, float), np.asarray(mu, float), np.asarray(C, float)
+    d = x - mu
+    sign, ld = np.linalg.slogdet(C)
+    return float(-0.5 * (d @ np.linalg.solve(C, d) + ld + len(d) * np.log(2 * np.pi)))
 
 
 def norm_term(lens, meta, cosmo, hyper):
@@ -464,7 +473,7 @@ def check_sharp_kin(rec, rng, inp):
     rec.case(dict(check="sharp_kin", type=t, model=model, scaling=meta["scaling"].get("kin_scaling_param_list"),
                   cosmo=cd["kind"], normalized=normalized, mst_ifu=lens.get("mst_ifu", False),
                   los=lens.get("global_los_distribution", False) is not False),
-             kind="sharp_kin:%s:%s:%s" % (t, model["anisotropy_model"], "x".join(meta["scaling"].get("kin_scaling_param_list", ["-"]))))
+             kind="sharp_kin:%s:%s:%dd" % (t, model["anisotropy_model"], len(meta["scaling"].get("kin_scaling_param_list", []))))
     gpi = 0 if "gamma_pl" in meta["scaling"].get("kin_scaling_param_list", []) else None
     try:
         ll = LensLikelihood(normalized=normalized, num_distribution_draws=ndraw, gamma_pl_index=gpi,
@@ -593,7 +602,7 @@ def check_scatter(rec, rng, inp, ndraw):
     names = meta["scaling"].get("kin_scaling_param_list", [])
     rec.case(dict(check="scatter", type=t, model=model, scaling=names, cosmo=cd["kind"], mst_ifu=lens.get("mst_ifu", False),
                   los=lens.get("global_los_distribution", False) is not False),
-             kind="scatter:%s:%s:%s" % (t, am, "x".join(names or ["-"])))
+             kind="scatter:%s:%s:%dd" % (t, am, len(names)))
     try:
         ll = LensLikelihood(normalized=True, num_distribution_draws=ndraw, **local_model_kwargs(model), **lens)
         np.random.seed(int(rng.integers(2 ** 31)))
